@@ -600,7 +600,8 @@ def layout(built, mode, seed):
 
     def brk(hash_next=False):
         """a line break of one of the four kinds, then continuation blanks; list of pieces.
-        5.2: no '#' within columns 1-5 (it would announce the vertical format)"""
+        a continuation line never BEGINS with '#' inside columns 1-5 (that announces the vertical format; a '#'
+        that follows other words on the line, as in `2 0 #1`, is fine since MontePy 453a5e4)"""
         r = rng.random() if mode != "single" else 0.0
         cont = " " * (5 if mode == "single" else rng.randint(5, 12))
         if r < 0.4:
@@ -682,9 +683,6 @@ def layout(built, mode, seed):
                 pieces = brk(_hash)
             else:
                 pieces = [("s", bl)]
-        # 5.2: no '#' within columns 1-5 of a line (it would announce the vertical input format)
-        if _hash and not any("\n" in t for _, t in pieces) and col + sum(len(t) for _, t in pieces) < 5:
-            pieces = list(pieces) + [("s", " " * (5 - col - sum(len(t) for _, t in pieces)))]
         # merge adjacent blanks into one SPACE token (the lexer's \s+ is greedy)
         merged = []
         for c, t in pieces:
